@@ -17,6 +17,7 @@ type Term struct {
 	args []*Term
 	p0   int   // extract hi / extend amount
 	p1   int   // extract lo
+	bodyStr string
 	ub   int64 // sound unsigned upper bound (-1 unknown); only meaningful for bit-vectors
 }
 
@@ -808,6 +809,13 @@ func (t *Term) ref() string {
 }
 
 func (t *Term) body() string {
+	if t.bodyStr == "" {
+		t.bodyStr = t.body0()
+	}
+	return t.bodyStr
+}
+
+func (t *Term) body0() string {
 	var sb strings.Builder
 	switch t.op {
 	case "extract":
